@@ -6,6 +6,7 @@ import (
 	"errors"
 	"fmt"
 	"io"
+	"math"
 	"math/rand"
 	"os"
 	"sort"
@@ -46,15 +47,25 @@ type Checker struct {
 	Tolerate bool
 	// OpTimeout is the per-operation watchdog.
 	OpTimeout time.Duration
-	lastErr   error
-	ctx       context.Context
+	// StrictRange (opt-in, C01) judges the ranged-fetch edges that blob.SubFetcher documents:
+	// the only documented refusals are a negative argument, a missing blob and an offset that
+	// "goes over the size of the blob"; offset == size and length == 0 are therefore valid
+	// (empty) ranges of a present blob and must succeed with what the reference map's slice
+	// [off:off+len], clipped to the blob, holds.  Without the flag an error on those two
+	// edges is tolerated (the behaviour every other check was written against).
+	StrictRange bool
+	// Cats counts, per category, the ranged fetches of certainly-present blobs that were
+	// compared with the reference map (see rangeCats).  nil-safe.
+	Cats    map[string]int
+	lastErr error
+	ctx     context.Context
 }
 
 // NewChecker returns a checker over an initially empty model.
 func NewChecker(s blobserver.Storage, label string, caps Caps, universe []Blob, report func(sig, what string)) *Checker {
 	return &Checker{S: s, Label: label, Caps: caps, Universe: universe,
 		Present: map[blob.Ref][]byte{}, Uncertain: map[blob.Ref]bool{},
-		Report: report, Ops: map[string]int{}, OpTimeout: 60 * time.Second, ctx: context.Background()}
+		Report: report, Ops: map[string]int{}, Cats: map[string]int{}, OpTimeout: 60 * time.Second, ctx: context.Background()}
 }
 
 func (c *Checker) bad(class, op, format string, args ...any) {
@@ -244,35 +255,110 @@ func (c *Checker) SubFetch(b Blob, off, length int64) {
 		}
 		return
 	}
+	size := int64(len(b.Data))
+	// huge: off+length does not fit an int64; the reference slice is simply "the rest of the blob"
+	huge := length > math.MaxInt64-off
+	if !tol && !unc {
+		c.rangeCats(size, off, length, huge)
+	}
 	if err != nil {
 		if tol || unc {
 			return
 		}
-		if off > int64(len(b.Data)) {
+		if off > size {
 			return // documented: ErrOutOfRangeOffsetSubFetch
 		}
 		if errors.Is(err, os.ErrNotExist) {
 			c.bad("present-missing", "subfetch", "subfetch %v: not found but present", b.Ref)
 			return
 		}
-		if off == int64(len(b.Data)) || length == 0 {
-			return // edge not pinned down by the interface text
+		if huge {
+			c.bad("range-overflow", "subfetch", "subfetch %v off=%d len=%d (off+len overflows int64; valid range = rest of the blob): %v", b, off, length, err)
+			return
+		}
+		if off == size || length == 0 {
+			if c.StrictRange {
+				// blob.SubFetcher: the error is ErrOutOfRangeOffsetSubFetch only "if offset goes over the
+				// size of the blob"; off <= size with a non-negative length is a valid (possibly empty) range
+				c.bad("range-refused", "subfetch", "subfetch %v off=%d len=%d refused (%v) although 0 <= off <= size and len >= 0: the reference map returns the %d-byte slice", b, off, length, err, clipEnd(size, off, length)-off)
+			}
+			return // edge not judged without StrictRange
 		}
 		c.bad("op-error", "subfetch", "subfetch %v off=%d len=%d: %v", b, off, length, err)
 		return
 	}
-	if off > int64(len(b.Data)) {
+	if off > size {
 		if len(data) != 0 {
 			c.bad("range", "subfetch", "subfetch %v off=%d beyond size returned %d bytes", b, off, len(data))
 		}
 		return
 	}
-	end := off + length
-	if end > int64(len(b.Data)) {
-		end = int64(len(b.Data))
-	}
+	end := clipEnd(size, off, length)
 	if !bytes.Equal(data, b.Data[off:end]) {
-		c.bad("content", "subfetch", "subfetch %v off=%d len=%d returned %d bytes, want %d (content differs)", b, off, length, len(data), end-off)
+		class := "content"
+		if huge {
+			class = "range-overflow"
+		}
+		c.bad(class, "subfetch", "subfetch %v off=%d len=%d returned %d bytes, want %d (content differs)", b, off, length, len(data), end-off)
+	}
+}
+
+// clipEnd is the end of the reference slice [off:off+length] clipped to size (0 <= off <= size, length >= 0).
+func clipEnd(size, off, length int64) int64 {
+	if length > size-off {
+		return size
+	}
+	return off + length
+}
+
+// rangeCats records which ranged-fetch categories were exercised on a certainly-present blob.
+func (c *Checker) rangeCats(size, off, length int64, huge bool) {
+	if c.Cats == nil {
+		return
+	}
+	switch {
+	case off > size:
+		c.Cats["off>size"]++
+	case off == size:
+		c.Cats["off==size"]++
+	case length > size-off:
+		c.Cats["clipped"]++
+	default:
+		c.Cats["inside"]++
+	}
+	if length == 0 && off <= size {
+		c.Cats["len==0"]++
+	}
+	if size == 0 && off == 0 {
+		c.Cats["empty-blob"]++
+	}
+	if huge {
+		c.Cats["huge-length"]++
+	}
+}
+
+// SubFetchEdges runs the directed boundary family of ranged fetches on b: every combination of
+// offset in {0, size/2, size-1, size, size+1} with length in {0, 1, size, size+5, MaxInt64-off,
+// MaxInt64}.  No-op when the store has no SubFetch.
+func (c *Checker) SubFetchEdges(b Blob) {
+	if _, ok := c.S.(blob.SubFetcher); !ok {
+		return
+	}
+	n := int64(len(b.Data))
+	offs := []int64{0, n, n + 1}
+	if n > 0 {
+		offs = append(offs, n-1)
+	}
+	if n > 2 {
+		offs = append(offs, n/2)
+	}
+	for _, off := range offs {
+		for _, ln := range []int64{0, 1, n, n + 5, math.MaxInt64 - off, math.MaxInt64} {
+			if c.Dead {
+				return
+			}
+			c.SubFetch(b, off, ln)
+		}
 	}
 }
 
@@ -587,6 +673,18 @@ func (c *Checker) Audit(rng *rand.Rand, full bool) {
 				c.SubFetch(b, 0, 1)
 				if n > 0 {
 					c.SubFetch(b, n-1, 5)
+				}
+			}
+		}
+		if c.StrictRange {
+			// boundary family: on every blob in a full audit, else on the empty blob(s) and two others
+			k1, k2 := -1, -1
+			if !full && len(c.Universe) > 0 {
+				k1, k2 = rng.Intn(len(c.Universe)), rng.Intn(len(c.Universe))
+			}
+			for i, b := range c.Universe {
+				if full || len(b.Data) == 0 || i == k1 || i == k2 {
+					c.SubFetchEdges(b)
 				}
 			}
 		}
